@@ -180,7 +180,10 @@ def state_tok(entries):
     """entries: [(contract, key, value | int error)]"""
     out = f"{len(entries)}"
     for c, k, v in entries:
-        out += f" {hx(c)} {L(k)} " + (f"e {v}" if isinstance(v, int) else "v " + L(v))
+        if isinstance(v, tuple):          # ("raw", [values...]): the exact answer to a read starting at this key
+            out += f" {hx(c)} {L(k)} r " + LL(v[1])
+        else:
+            out += f" {hx(c)} {L(k)} " + (f"e {v}" if isinstance(v, int) else "v " + L(v))
     return out
 
 
@@ -316,6 +319,18 @@ def c06_cases(rng, tier):
                 prog = [P(50), op("ALOC"), op("POP")] + [P(w) for w in key] + [P(len(key)), P(n), P(0), op(rd), P(1)]
                 for muts in ([], [([1], [3])], [([I64_MAX], [4]), ([I64_MIN], [5])]):
                     cases.append(single_leaf_case(rng, prog, sols=[(ADDR_A, ADDR_B, [], muts)], state=st))
+    # (2b) a state that answers with fewer / more values than requested (incl. none at all), read through both views, from
+    # a contract the set mutates (overlay path) and one it does not (direct path)
+    for raw in ([], [[]], [[5]], [[5], [6]], [[5], [6], [7]], [[], [], []]):
+        st2 = [(ADDR_A, [1], ("raw", raw)), (ADDR_A, [2], [7]), (ADDR_C, [1], ("raw", raw))]
+        for n in (0, 1, 2, 3):
+            for rd in ("PKRNG", "KRNG"):
+                prog = [P(60), op("ALOC"), op("POP"), P(1), P(1), P(n), P(0), op(rd), P(1)]
+                for muts in ([], [([2], [3])], [([1], [4])], [([9], [4])]):
+                    cases.append(single_leaf_case(rng, prog, sols=[(ADDR_A, ADDR_B, [], muts)], state=st2))
+            ext = list(V.struct_words(ADDR_C))
+            progx = [P(60), op("ALOC"), op("POP")] + [P(w) for w in ext] + [P(1), P(1), P(n), P(0), op("PKREX"), P(1)]
+            cases.append(single_leaf_case(rng, progx, sols=[(ADDR_A, ADDR_B, [], [([2], [3])])], state=st2))
     # (3) cyclic / dangling / malformed graphs (all numberings of small edge lists)
     pb = prog_bytes(p_sat())
     pc = prog_bytes(p_const(7))
@@ -923,7 +938,7 @@ def spin(k):
 def c02_check_cases(rng, tier):
     """two-pass cases with wide levels and many solutions whose tasks take very different times"""
     out = []
-    n_cases = 24 if tier == "quick" else 300
+    n_cases = 24 if tier == "quick" else 120
     for ci in range(n_cases):
         n_sols = rng.choice([1, 2, 3, 5, 8])
         sols, preds, pbytes = [], [], []
@@ -979,14 +994,14 @@ def c02_vm_cases(rng, tier):
 
 def c02_cases(rng, tier):
     sizes = [1, 2, 5, 16] if tier == "quick" else list(range(1, 17))
-    reps = 2 if tier == "quick" else 4
+    reps = 2 if tier == "quick" else 3
     pre = f"o_pool {len(sizes)} " + " ".join(map(str, sizes)) + f" {reps} "
     cases = c02_check_cases(rng, tier) + c02_vm_cases(rng, tier)
     # inputs of C01 / C03 / C10 as well
     c1, _ = c01_cases(rng, "quick")
     c3, _ = c03_cases(rng, "quick")
     c10, _ = V.c10_cases(rng, "quick")
-    extra = rng.sample(c1, min(len(c1), 40 if tier == "quick" else 300)) + rng.sample(c3, min(len(c3), 30 if tier == "quick" else 200)) + \
-        rng.sample(c10, min(len(c10), 40 if tier == "quick" else 300))
+    extra = rng.sample(c1, min(len(c1), 40 if tier == "quick" else 120)) + rng.sample(c3, min(len(c3), 30 if tier == "quick" else 100)) + \
+        rng.sample(c10, min(len(c10), 40 if tier == "quick" else 120))
     cases += extra
     return cases, [pre + c for c in cases]
